@@ -97,6 +97,48 @@ Theorem C10_sent_frame : forall r w f,
   content_eq f (sent_frame r w f) /\ sent_frame Server w f = f.
 Proof. intros r w f. split; [apply sent_frame_content|reflexivity]. Qed.
 
+(* ---- Pong and Close travel through the additional_send slot ---- *)
+
+(* the design's "Ok => the frame was appended to queued" does NOT hold for Pong: with no room in
+   out_buffer the pong stays in the slot and the call still returns Ok (nothing queued) *)
+Theorem C10_accept_pong_refuted :
+  exists x0 w0 x1 w1,
+    ctx_new Server [] (mkConfig 0 3 None None false) = Some x0 /\
+    write x0 (MPong [1; 2]) w0 = (ROk tt, x1, w1) /\
+    queued (w_log w1) = queued (w_log w0) /\ x_additional x1 = Some (frame_pong [1; 2]).
+Proof. exact c10_accept_pong_refuted. Qed.
+
+(* corrected statement: whatever the result, the pong was either queued (and nothing else was) or is
+   still pending in the slot — never lost, never duplicated *)
+Theorem C10_accept_pong : forall x d w r x' w',
+  x_state x = Active ->
+  (x_additional x = None \/ exists a, x_additional x = Some a /\ h_opcode (f_hdr a) = OCtl Pong) ->
+  write x (MPong d) w = (r, x', w') ->
+  exists evs, w_log w' = w_log w ++ evs /\
+    ((queued evs = [] /\ exists a', x_additional x' = Some a' /\ content_eq (frame_pong d) a') \/
+     (exists a', queued evs = [a'] /\ content_eq (frame_pong d) a' /\ x_additional x' = None)).
+Proof. exact c10_accept_pong_std. Qed.
+
+(* same for close(code) / write(Close code) on an active connection *)
+Theorem C10_accept_close : forall x code w r x' w',
+  x_state x = Active -> write x (MClose code) w = (r, x', w') ->
+  exists evs, w_log w' = w_log w ++ evs /\
+    ((queued evs = [] /\ exists a', x_additional x' = Some a' /\ content_eq (frame_close code) a') \/
+     (exists a', queued evs = [a'] /\ content_eq (frame_close code) a' /\ x_additional x' = None)).
+Proof. exact c10_accept_close. Qed.
+
+(* and a pending frame is moved to the queue by a later flush (or stays pending), in any state *)
+Theorem C10_flush_slot : forall x w r x' w',
+  flush x w = (r, x', w') ->
+  exists evs, w_log w' = w_log w ++ evs /\
+    match x_additional x with
+    | None => queued evs = [] /\ x_additional x' = None
+    | Some a =>
+        (queued evs = [] /\ exists a', x_additional x' = Some a' /\ content_eq a a') \/
+        (exists a', queued evs = [a'] /\ content_eq a a' /\ x_additional x' = None)
+    end.
+Proof. exact c10_flush_slot. Qed.
+
 (* ---- flush ---- *)
 
 Theorem C10_flush : forall x w u x' w',
@@ -232,6 +274,10 @@ Print Assumptions C10_write_events.
 Print Assumptions C10_accept.
 Print Assumptions C10_accept_queued.
 Print Assumptions C10_sent_frame.
+Print Assumptions C10_accept_pong_refuted.
+Print Assumptions C10_accept_pong.
+Print Assumptions C10_accept_close.
+Print Assumptions C10_flush_slot.
 Print Assumptions C10_flush.
 Print Assumptions C10_retry.
 Print Assumptions C10_zero_write.
